@@ -160,7 +160,8 @@ def gen_input(rng, P: Pools, name, shell):
             ib["prefix"] = rng.choice(PREFIXES)
         schema["type"] = {"type": "array", "items": t[:-2], "inputBinding": ib}
         item_binding = True
-    if bound or (t == "boolean[]" and not W):
+    if bound or (t == "boolean[]" and not W) or (item_binding and not W):
+        # R: an array with bound items is always bound itself, see mechanism C30/unbound-array-items-ordered-by-name
         schema["inputBinding"] = gen_binding(rng, P, t, shell, composite=is_array)
         if item_binding and not W:
             schema["inputBinding"].pop("itemSeparator", None)  # R: see mechanism C30/item-bindings-dropped-with-itemseparator
@@ -274,7 +275,7 @@ def gen_rich(rng, probe_path: str, mode: str) -> dict:
 
 # ---- class T: one listed trigger in a minimal tool ----------------------------------------------------
 TRIGGERS = ["composite-unescaped", "composite-unescaped", "composite-unescaped", "boolean-array", "item-binding-separator",
-            "env-expansion", "env-expansion", "stdout-only"]
+            "env-expansion", "env-expansion", "stdout-only", "unbound-array-order"]
 
 
 def gen_trigger(rng, probe_path: str, which: str | None = None) -> dict:
@@ -345,6 +346,18 @@ def gen_trigger(rng, probe_path: str, which: str | None = None) -> dict:
         t = rng.choice(["int", "string"])
         inputs["a"] = {"type": {"type": "array", "items": t, "inputBinding": ib}, "inputBinding": {"itemSeparator": rng.choice(SEPARATORS)}}
         job["a"] = [rng.randint(0, 9) for _ in range(rng.randint(1, 3))] if t == "int" else [rng.choice(BENIGN_STRS) for _ in range(rng.randint(1, 3))]
+    elif which == "unbound-array-order":
+        ib = {}
+        if rng.random() < 0.4:
+            ib["prefix"] = rng.choice(PREFIXES)
+        inputs["k"] = {"type": {"type": "array", "items": rng.choice(["int", "string"]), "inputBinding": ib}}
+        job["k"] = [rng.randint(0, 9) for _ in range(rng.randint(1, 2))] if inputs["k"]["type"]["items"] == "int" \
+            else [rng.choice(BENIGN_STRS) for _ in range(rng.randint(1, 2))]
+        inputs["b"] = {"type": "string", "inputBinding": {}}
+        job["b"] = hs()
+        if rng.random() < 0.5:
+            inputs["z"] = {"type": "int", "inputBinding": {"prefix": "--long"}}
+            job["z"] = rng.randint(0, 9)
     elif which == "env-expansion":
         inputs["a"] = {"type": "string", "inputBinding": {}}
         job["a"] = rng.choice(BENIGN_STRS)
